@@ -30,7 +30,8 @@ ASSUMPTIONS = ['exact real arithmetic in theorems; dt <> 0 and beta <> 0 stated 
                'general strain energies: directional differentiability (hypothesis HdSE); proved outright for the quadratic energy',
                'partition of unity of the shape functions at the quadrature points (premise of the mass theorems; property C03)',
                'functional extensionality (standard library axiom) for equality of fields']
-RULE = ('meshes: structured, random extents and divisions, element order 1 and 2; material: linear elastic with random E, nu, density; '
+RULE = ('additional problems in every tier: element order 2 (thorough: also 3) with UNDER-integrating rules (degree 2 / 4) on distorted meshes with non-rigid initial velocity, energy measured with the library\'s own compute_output_kinetic_energy + compute_output_strain_energy; entrywise equality of the mass driving the integrator (beta dt^2 (Hessian of the algorithmic energy - K)) and the mass of the reported kinetic energy. '
+        'meshes: structured, random extents and divisions, element order 1 and 2; material: linear elastic with random E, nu, density; '
         'Newmark parameters: trapezoidal and random (gamma >= 1/2, beta >= (gamma+1/2)^2/4); random initial displacement/velocity fields with '
         'consistent initial acceleration; variable time steps over two decades. Kernel inputs: random scalars over ten decades incl. exact '
         'dyadic ones. A step is non-trivial when displacement, velocity and acceleration are all non-zero; distinct = distinct (mesh, parameters, step)')
